@@ -67,6 +67,9 @@ def canon(state, fields=None):
 
 
 class World:
+    # model prefix -> the prefix really used (a bound prefix is any XML name: the model's "x" can be realised by a non-ASCII one)
+    prefix_alias = {}
+
     def __init__(self, atoms=None, text_of=None, clear=True):
         if clear:
             Node.store.clear()    # harness-side isolation of the process-wide registry
@@ -138,8 +141,8 @@ class World:
 
             def declare(i):
                 for q, u in sorted(map(tuple, state["ns"][i - 1])):
-                    if w.n(i).nsmap.get(q) != u:
-                        w.n(i).add_namespace(q, u)
+                    if w.n(i).nsmap.get(World.prefix_alias.get(q, q)) != u:
+                        w.n(i).add_namespace(World.prefix_alias.get(q, q), u)
                 for c in state["kids"][i - 1]:
                     declare(c)
             for i in range(1, n + 1):
@@ -151,7 +154,7 @@ class World:
                 raise MachineryError(f"cannot establish namespace maps through the API: want {want} got {got}")
         elif "ns" in state:
             for i in range(n):
-                w.n(i + 1).nsmap = {(None if q == "~default" else q): u for q, u in state["ns"][i]}      # "~default": the key None (default namespace)
+                w.n(i + 1).nsmap = {(None if q == "~default" else World.prefix_alias.get(q, q)): u for q, u in state["ns"][i]}      # "~default": the key None (default namespace)
         if "store" in state and not ids:
             keep = set(state["store"])
             for i in range(n):
@@ -170,7 +173,8 @@ class World:
         if "kids" in fields:
             st["kids"] = [[self.ident(c) for c in x.children] for x in N]
         if "ns" in fields:
-            st["ns"] = [sorted(["~default" if q is None else q, u] for q, u in x.nsmap.items()) for x in N]    # None key = default namespace
+            inv = {v: k for k, v in World.prefix_alias.items()}
+            st["ns"] = [sorted(["~default" if q is None else inv.get(q, q), u] for q, u in x.nsmap.items()) for x in N]    # None key = default namespace
         if "content" in fields:
             st["content"] = [self.atoms.atom(x.content) for x in N]
         if "tail" in fields:
@@ -251,10 +255,10 @@ class World:
             d = Shift.RIGHT if a[2] == "R" else Shift.LEFT
             return n(a[0]).shift(n(a[1]), d, sib=bool(a[3]))
         if name == "add_namespace":
-            n(a[0]).add_namespace(a[1], a[2])
+            n(a[0]).add_namespace(World.prefix_alias.get(a[1], a[1]), a[2])
             return 0
         if name == "remove_namespace":
-            n(a[0]).remove_namespace(a[1])
+            n(a[0]).remove_namespace(World.prefix_alias.get(a[1], a[1]))
             return 0
         if name == "copy":
             if getattr(self, "copy_via_json", False):
